@@ -312,23 +312,23 @@ func runCheck(eng *Engine, prop, tier string, verbose, noReplay bool) int {
 	}
 	ev := Evidence{PropertyID: prop, Tier: tier, Seed: solverSeed, Level: "proof", WallS: round3(time.Since(t0).Seconds()), Violations: violations, Assumptions: assumptions,
 		Coverage: map[string]interface{}{
-			"obligations":            nObl,
-			"discharged":             nDis,
-			"checker_cmd":            fmt.Sprintf("bin/govc check %s --tier %s --repo %s", prop, tier, eng.repo),
-			"trusted_base":           []string{"govc VC generator", "go/ssa (x/tools v0.29.0)", "z3 4.8.12", "z3 5.1.0 (z3-new)", "cvc5 1.0.3", "assumed contracts listed under assumptions"},
+			"obligations":              nObl,
+			"discharged":               nDis,
+			"checker_cmd":              fmt.Sprintf("bin/govc check %s --tier %s --repo %s", prop, tier, eng.repo),
+			"trusted_base":             []string{"govc VC generator", "go/ssa (x/tools v0.29.0)", "z3 4.8.12", "z3 5.1.0 (z3-new)", "cvc5 1.0.3", "assumed contracts listed under assumptions"},
 			"functions_under_contract": fns,
-			"obligation_records":     perObl,
-			"by_backend":             bySolver,
-			"solver_time":            solverTimes,
-			"generation_secs":        round3(genSecs),
-			"solving_secs":           round3(solveSecs),
-			"load_secs":              round3(eng.loadSecs),
-			"side_queries":           map[string]int{"asked": sideAsked, "proved": sideProved},
-			"possible_wraparound":    wraps,
-			"known_findings":         findingRecs,
-			"contract_files":         relFiles(eng, eng.cs.Files),
-			"samples":                samples,
-			"packages":               pats,
+			"obligation_records":       perObl,
+			"by_backend":               bySolver,
+			"solver_time":              solverTimes,
+			"generation_secs":          round3(genSecs),
+			"solving_secs":             round3(solveSecs),
+			"load_secs":                round3(eng.loadSecs),
+			"side_queries":             map[string]int{"asked": sideAsked, "proved": sideProved},
+			"possible_wraparound":      wraps,
+			"known_findings":           findingRecs,
+			"contract_files":           relFiles(eng, eng.cs.Files),
+			"samples":                  samples,
+			"packages":                 pats,
 		}}
 	data, _ := json.MarshalIndent(ev, "", " ")
 	os.WriteFile(evPath, data, 0644)
@@ -443,13 +443,13 @@ func writeReplay(eng *Engine, prop, name string, body map[string]interface{}) st
 // replayGroup writes the replay file for a failed obligation and, where a replay adapter exists, runs it on the real code
 func replayGroup(eng *Engine, prop string, g *Group, r *FuncResult, noReplay bool) (string, bool) {
 	body := map[string]interface{}{
-		"property":   prop,
-		"obligation": g.Name,
-		"kind":       g.Kind,
-		"status":     g.Status,
-		"where":      g.Where,
-		"solver":     g.Solver,
-		"solver_output": truncate(g.Model, 4000),
+		"property":           prop,
+		"obligation":         g.Name,
+		"kind":               g.Kind,
+		"status":             g.Status,
+		"where":              g.Where,
+		"solver":             g.Solver,
+		"solver_output":      truncate(g.Model, 4000),
 		"bounded_refutation": g.R1,
 	}
 	reproduced := false
